@@ -284,7 +284,7 @@ func setStr(m map[string]bool) string {
 func init() {
 	register("c16", "no lost wake-ups: event handlers and worker requeue discipline", func([]string) int {
 		rep := explore.NewReport("C16", "model_checking")
-		rep.Rule = "exhaustive event shapes on the real handlers registered by the real constructor: sets web and db in the lister with selectors {app=web | tier=db; both app=web; app In (web,web2) | tier Exists; app=web and tier DoesNotExist | app NotIn (web)}; pod shapes = owner{none, web right UID, web right UID under the older API version v1alpha1, web stale UID, ReplicaSet named web, non-controller ref, db, unknown set} x labels{web, db, both, unrelated, nil} x terminating; events = add(shape), update(old shape x new shape x same/different resourceVersion), delete(object), delete(tombstone with pod), delete(tombstone with junk), delete(junk); set add / delete / tombstone and update by every kind of edit and its undo (pause annotation, delete-slots, other annotation, label, replicas, template, status, deletion timestamp, finalizer, owner reference); worker = every success/failure sequence of length <=4 and every run of 5..40 consecutive failures followed by a success (failure = InternalError on the first API call; the recording queue counts requeues like a real rate limiter). Oracle: required subset of enqueued subset of allowed keys by a reference function written from the property; failure => AddRateLimited and no Forget, success => Forget, Done always. Non-trivial = the reference requires or allows at least one key."
+		rep.Rule = "exhaustive event shapes on the real handlers registered by the real constructor: sets web and db in the lister with selectors {app=web | tier=db; both app=web; app In (web,web2) | tier Exists; app=web and tier DoesNotExist | app NotIn (web)}; pod shapes = owner{none, web right UID, web right UID under the older API version v1alpha1, web stale UID, ReplicaSet named web, non-controller ref, db, unknown set} x labels{web, db, both, unrelated, nil} x terminating; events = add(shape), update(old shape x new shape x same/different resourceVersion), delete(object), delete(tombstone with pod), delete(tombstone with junk), delete(junk); set add / delete / tombstone and update by every kind of edit and its undo (pause annotation, delete-slots, other annotation, label, replicas, template, status, deletion timestamp, finalizer, owner reference); worker = every success/failure sequence of length <=4 and every run of 5..40 consecutive failures followed by a success (failure = InternalError on the first API call; the recording queue counts requeues like a real rate limiter); and a worker step with an InternalError or a lost response at every call position of the reconcile of every state of a seed set (C09's seeds, a shallow population grid, owned pods next to orphans and pods to release): when the work is left undone the key is put back with backoff. Oracle: required subset of enqueued subset of allowed keys by a reference function written from the property; failure => AddRateLimited and no Forget, success => Forget, Done always. Non-trivial = the reference requires or allows at least one key."
 		rep.Assumptions = []string{"selectors in the lister are valid ones", "orphan update without label/owner change and orphan delete are don't-care (property does not fix them)"}
 		var owners = []string{"none", "A", "Aoldversion", "Astale", "Akind", "Anonctrl", "B", "C"}
 		var labs = []string{"A", "B", "both", "none", "nil"}
@@ -470,6 +470,68 @@ func init() {
 					}
 				}
 			}
+		}
+		// a failure at any call position of the reconcile, seen through the real worker step: if the call failed and
+		// the work it stood for is left undone (state differs from the fault-free outcome), the key must be put back
+		// with backoff and the backoff must not be cleared
+		{
+			w := world.New()
+			q := &recQueue{}
+			w.Ctrl.VerifSetQueue(q)
+			key := world.NS + "/web"
+			step := func(st *world.State, plan world.FaultPlan) ([]*world.Call, *world.State, string) {
+				w.Lag = 0
+				w.Load(st.Clone())
+				q.requeues, q.log, q.items = 0, nil, []interface{}{key}
+				w.FillCaches()
+				w.Begin(plan)
+				w.Ctrl.VerifProcessNextWorkItem()
+				calls := w.End()
+				events++
+				return calls, w.S.Clone(), strings.Join(q.log, "; ")
+			}
+			seeds := c09ExtraSeeds(true)
+			for _, sd := range searchSeeds([]gridOpts{{N: 3, MaxR: 2, MaxSlots: 1, Policies: []string{"OrderedReady", "Parallel"}, Strategies: []gen.Strategy{gen.RU(0)}, Histories: []history{histories[1]}, DMin: 0, DMax: 1, Limit: 10}}) {
+				seeds = append(seeds, sd)
+			}
+			// owned pods next to an orphan outside the desired set and next to an owned pod to release
+			for _, pol := range []string{"OrderedReady", "Parallel"} {
+				orphan := gen.Cell{Present: true, Phase: v1.PodRunning, Ready: true, Rev: 0, Owner: "none"}
+				nomatch := gen.Cell{Present: true, Phase: v1.PodRunning, Ready: true, Rev: 0, NoMatch: true}
+				for _, cells := range [][]gen.Cell{{gen.ReadyAt(0), gen.ReadyAt(0), orphan}, {gen.ReadyAt(0), gen.ReadyAt(0), nomatch}, {gen.ReadyAt(0), orphan, orphan}} {
+					sc := gen.Scenario{Spec: gen.Spec{Name: "web", Replicas: 2, Policy: pol, Strategy: gen.RU(0), Limit: 10, Template: 1}, Revs: []int{1}, Cur: 0, Cells: cells}
+					seeds = append(seeds, explore.Seed{Label: sc.String(), State: sc.Build(w)})
+				}
+			}
+			var positions int64
+			for _, sd := range seeds {
+				baseCalls, baseAfter, _ := step(sd.State, nil)
+				for _, c := range baseCalls {
+					for _, kind := range []string{world.FErr500, world.FTimeout} {
+						if kind == world.FTimeout && !c.IsWrite() {
+							continue
+						}
+						positions++
+						_, after, l := step(sd.State, world.FaultPlan{c.ID: kind})
+						has := func(x string) bool { return strings.Contains(l, x+" "+key) }
+						label := fmt.Sprintf("%s, worker step with %s=%s", sd.Label, c.ID, kind)
+						h := sha256.Sum256([]byte(label))
+						var k [16]byte
+						copy(k[:], h[:16])
+						rep.Count(k, true, "worker step with a failing call")
+						if after.Key() == baseAfter.Key() {
+							continue // absorbed: same outcome as without the failure
+						}
+						if !has("AddRateLimited") || has("Forget") {
+							rep.Violation("C16", "worker-requeue", fmt.Sprintf("%s: the call failed, its work is left undone, and the key was not put back with backoff: %s", label, l), func() interface{} {
+								return map[string]interface{}{"kind": "c16-worker-fault", "seed": sd.Label, "fault": c.ID + "=" + kind, "queue_log": l}
+							})
+						}
+					}
+				}
+			}
+			rep.Extra["worker_fault_positions"] = positions
+			rep.Extra["worker_fault_seeds"] = len(seeds)
 		}
 		rep.AddStates(events, events)
 		rep.Validated = events
